@@ -2,8 +2,12 @@ package props
 
 import (
 	"bytes"
+	"encoding/json"
 	"fmt"
 	"math/big"
+	"os"
+	"os/exec"
+	"path/filepath"
 	"time"
 
 	admintypes "github.com/Sifchain/sifnode/x/admin/types"
@@ -143,6 +147,82 @@ func scriptAdminParams(k int) *env.Env {
 	return e
 }
 
+// reexecProcesses: the recorded calls executed by real child processes on one database directory — the first process runs
+// the chain up to a commit in the middle, a second one opens the database and runs the rest. What the blocks compute must
+// not depend on what the process did before (package-level state, first-call initialisation): a node restarted there
+// must agree with the node that ran all along (the recording, and the in-process replays, come from processes that had
+// executed many blocks of other chains before).
+func reexecProcesses(rep *report.Report, c *chain.Chain, kind string, replay interface{}) int {
+	if c.InBlock {
+		c.EndBlock()
+		c.Commit()
+	}
+	ops := c.Ops
+	var commits []int
+	for i, o := range ops {
+		if o.Kind == 4 {
+			commits = append(commits, i)
+		}
+	}
+	if len(commits) < 2 {
+		return 0
+	}
+	exe, err := os.Executable()
+	if err != nil {
+		panic(err)
+	}
+	dir, err := os.MkdirTemp("", "sifverif-replay-")
+	if err != nil {
+		panic(err)
+	}
+	defer os.RemoveAll(dir)
+	cut := commits[len(commits)/2] + 1
+	var got []chain.Op
+	for part, rng := range [][2]int{{0, cut}, {cut, len(ops)}} {
+		job := chain.ReplayJob{Dir: filepath.Join(dir, "db"), Genesis: c.GenesisBytes, T0: c.T0, Ops: ops[rng[0]:rng[1]], Init: part == 0}
+		bz, _ := json.Marshal(job)
+		jf := filepath.Join(dir, fmt.Sprintf("job%d.json", part))
+		if err := os.WriteFile(jf, bz, 0o644); err != nil {
+			panic(err)
+		}
+		if out, err := exec.Command(exe, "replay-child", jf).CombinedOutput(); err != nil {
+			rep.Notes = append(rep.Notes, "replay child failed: "+trunc(string(out), 300))
+			return 0
+		}
+		res, err := os.ReadFile(jf + ".out")
+		if err != nil {
+			panic(err)
+		}
+		var part1 []chain.Op
+		if err := json.Unmarshal(res, &part1); err != nil {
+			panic(err)
+		}
+		got = append(got, part1...)
+	}
+	for i, o := range ops {
+		g := got[i]
+		where := "first"
+		if i >= cut {
+			where = "second"
+		}
+		switch {
+		case o.Panic != g.Panic:
+			rep.Violate("C09/process-restart/panic-differs/"+kind, fmt.Sprintf("call %d (kind %d, height %d): panicked=%v in the recording, %v in the %s child process", i, o.Kind, o.Height, o.Panic, g.Panic, where), replay)
+			return len(ops)
+		case o.Kind == 4 && !bytes.Equal(o.Hash, g.Hash):
+			rep.Violate("C09/process-restart/app-hash-differs/"+kind, fmt.Sprintf("app hash after block %d: %X in the recording, %X in the %s child process (process started after block %d)", o.Height, o.Hash, g.Hash, where, ops[cut-1].Height), replay)
+			return len(ops)
+		case o.Kind == 2 && o.Code == g.Code && o.Code != 0 && o.GasW == 0 && g.GasW == 0 && o.GasU != g.GasU:
+			// finding F-27 (GasUsed of a transaction refused before the ante handler), reported by the in-process restarts
+		case o.Kind == 2 && (o.Code != g.Code || !bytes.Equal(o.Data, g.Data) || o.GasW != g.GasW || o.GasU != g.GasU):
+			rep.Violate("C09/process-restart/tx-result-differs/"+kind, fmt.Sprintf("DeliverTx %d in block %d: code %d/%d gas %d/%d (%s child process)", i, o.Height, o.Code, g.Code, o.GasU, g.GasU, where), replay)
+			return len(ops)
+		}
+	}
+	rep.Count("reexecuted-in-child-processes." + kind)
+	return len(ops)
+}
+
 // scriptRegistryChange: corpus history — a pool is processed by the block hooks for some blocks, then the token registry
 // entry of its token is re-registered with other decimals (and later with the old ones again), with blocks and swaps in
 // between: a node that restarts after the change must compute what the node that ran all along computes.
@@ -192,6 +272,7 @@ func C09(c Ctx) *report.Report {
 	{
 		e := scriptRegistryChange()
 		calls += reexec(rep, e.Chain, 2*runs, "registry-change", map[string]interface{}{"corpus": "two pools; ceth re-registered with 6, 18 and 8 decimals, cusdc deregistered, swaps and blocks in between"})
+		calls += reexecProcesses(rep, e.Chain, "registry-change", map[string]interface{}{"corpus": "two pools; ceth re-registered with 6, 18 and 8 decimals, cusdc deregistered, swaps and blocks in between"})
 		hists++
 		rep.Count("reexecuted.registry-change")
 	}
@@ -265,6 +346,9 @@ func C09(c Ctx) *report.Report {
 			continue
 		}
 		calls += reexec(rep, e.Chain, runs, "policy", map[string]interface{}{"message": name, "fields": fields})
+		if i%3 == 0 {
+			calls += reexecProcesses(rep, e.Chain, "policy", map[string]interface{}{"message": name, "fields": fields})
+		}
 		hists++
 		rep.Count("reexecuted.policy")
 	}
